@@ -84,4 +84,5 @@ FAM = {
 
 
 def check(run, replay=None):
-    return simple_family(run, FAM, replay)
+    import fam_builder
+    return simple_family(run, FAM, replay, stages=[("declaration_history", fam_builder.FAM)])
